@@ -115,6 +115,35 @@ CHECKS = {
             "rank x lattices x seeds; Crystals: real prefitting config/model x product of prefitting lattice kernel patterns.",
             "seed windows; Crystals prefitting kernels over a 3-7 letter pattern alphabet",
             "3/C17"),
+    "C03": (MC,
+            "explicit-state BFS (depth 3) over real Keras models: each transition is one real optimizer step or a "
+            "rebuild-from-config; invariant evaluated in every reached state",
+            "15 (21) premade/stacked models covering calibrated linear, lattice (hypercube/simplex/KFL), ensembles "
+            "(explicit, random, RTL; average / linear combination; output calibration) with an increasing, a decreasing, "
+            "an unconstrained-with-missing and a categorical feature with ordering pairs; actions: new-style SGD with lr "
+            "0.1..1e4 (1e6), Adam, legacy SGD (per-variable interleaving), three losses incl. anti-monotone labels, two "
+            "batches, rebuild; invariant = all ordered pairs along constrained features on the full input grid, "
+            "categorical orderings, output bounds incl. missing values; histories replayed on fresh models.",
+            "float32; tolerance 1e-4*max(1,|out|); fixed optimizer/loss/batch menu; states whose weights overflowed float32 "
+            "(>1e8 with non-finite outputs) are skipped and counted",
+            "3/C03"),
+    "C11": (MC,
+            "bounded exhaustive enumeration of constructor-argument products (config/JSON round trips) + histories with a "
+            "serialize->restore inserted at every position",
+            "34 classes with get_config x products of {default, 1-2 non-default} argument values: from_config(get_config()) "
+            "directly and via JSON, equal configs, same variables, identical outputs / constraints / losses with copied "
+            "weights; 7 models x {config+weights, h5, (keras, SavedModel)} x restore at every position of a 2-3 step "
+            "history: final outputs equal to the uninterrupted history, restored variables feasible, seed-derived "
+            "structures reproduced.",
+            "argument products above the cap are reduced to all single+pairwise settings (reported in evidence notes)",
+            "3/C11"),
+    "C16": (EX,
+            "bounded exhaustive enumeration of valid and invalid constructor cross-products with an independent validity predicate",
+            "Lattice, PWLCalibration, Linear, CategoricalCalibration, KFL, RTL and premade configs over small domains: "
+            "must-reject configurations raise ValueError at construction/build, accepted ones project all {-1,0,1}^n words "
+            "(+images) and evaluate on a grid without raising and finitely; synonymous spellings give identical results.",
+            "'either' where the documentation leaves validity open",
+            "3/C16"),
     "C13": (EX,
             "bounded exhaustive enumeration of kernels x regularizer configurations against the literal docstring sums",
             "Lattice Laplacian/torsion on 7 (12) shapes x scalar/per-dimension amounts (with zeros) x all words of "
